@@ -188,4 +188,175 @@ example : exCfg.Valid ∧ exCfg.iterable = false ∧ exCfg.inOrder = true ∧ No
       some [.item 10, .sd 1 0 0 1 [⟨1, false⟩, ⟨0, false⟩], .error, .item 12, .stop] := by
   refine ⟨⟨by decide, by decide⟩, rfl, rfl, by simp [NoReset, exRun], Or.inl (by decide), by decide⟩
 
+/-! ## Part 2 — iterable datasets with worker retirement, `in_order = True` -/
+
+section Iter
+
+variable (c : Cfg) (hv : c.ValidI) (hit : c.iterable = true) (hio : c.inOrder = true)
+include hv hit hio
+
+/-- **C03/C05 safety, iterable.**  For every schedule — in particular whenever end-of-shard notices
+arrive early, late or out of order, and however many dead tasks were dispatched to workers that had
+ended but were not yet known to have ended — the batches yielded so far are a prefix of
+`Ref.interleave shards` (torch's DataLoader order). -/
+theorem yields_prefix_ref_iter (as : List Action) (s : State) (hnr : NoReset as)
+    (hr : run c (init c) as = some s) (hd : ¬ died s) (ha : Obs.assertion ∉ s.obs) :
+    yields s.obs <+: oks (refStream c) := by
+  obtain ⟨D, hp, ho, _⟩ := taskObs_eq_iter c hv hit hio as s hnr hr hd ha
+  rw [← yields_taskObs, ho, yields_map_expected]
+  simp only [refStream, hit, if_true]
+  exact oks_prefix _ _ hp
+
+/-- **C05 determinism, iterable.** -/
+theorem deterministic_iter (as₁ as₂ : List Action) (s₁ s₂ : State) (hn₁ : NoReset as₁) (hn₂ : NoReset as₂)
+    (hr₁ : run c (init c) as₁ = some s₁) (hr₂ : run c (init c) as₂ = some s₂)
+    (hd₁ : ¬ died s₁) (hd₂ : ¬ died s₂) (ha₁ : Obs.assertion ∉ s₁.obs) (ha₂ : Obs.assertion ∉ s₂.obs)
+    (hlen : (yields s₁.obs).length = (yields s₂.obs).length) : yields s₁.obs = yields s₂.obs :=
+  prefix_eq_of_length _ _ _ (yields_prefix_ref_iter c hv hit hio as₁ s₁ hn₁ hr₁ hd₁ ha₁)
+    (yields_prefix_ref_iter c hv hit hio as₂ s₂ hn₂ hr₂ hd₂ ha₂) hlen
+
+/-- **C10 `error_position`, iterable, safety half.**  As long as the `_take_snapshot` assertion has not
+fired, what the consumer has seen (batches and re-raised errors) is a prefix of the reference stream
+with the failing fetches replaced by the error — nothing moved, nothing lost, for every schedule. -/
+theorem error_position_prefix_iter (as : List Action) (s : State) (hnr : NoReset as)
+    (hr : run c (init c) as = some s) (hd : ¬ died s) (ha : Obs.assertion ∉ s.obs) :
+    ∃ n, taskObs s.obs = ((refStream c).take n).map expected := by
+  obtain ⟨D, hp, ho, _⟩ := taskObs_eq_iter c hv hit hio as s hnr hr hd ha
+  refine ⟨D.length, ?_⟩
+  simp only [refStream, hit, if_true]
+  rw [ho]
+  congr 1
+  exact List.prefix_iff_eq_take.mp hp
+
+/-- **C03 exactly once / epoch complete, iterable.**  Once `next()` has raised StopIteration — which
+happens only after every worker has retired — the consumer has seen the whole of `Ref.interleave shards`,
+each batch (or its error) exactly once and in order: the epoch cannot end early, whatever the arrival
+order of the end-of-shard notices and however many dead tasks were dispatched. -/
+theorem epoch_complete_iter (as : List Action) (s : State) (hnr : NoReset as)
+    (hr : run c (init c) as = some s) (hd : ¬ died s) (ha : Obs.assertion ∉ s.obs) (hstop : Obs.stop ∈ s.obs) :
+    taskObs s.obs = (refStream c).map expected ∧ yields s.obs = oks (refStream c) := by
+  obtain ⟨D, _, ho, hf⟩ := taskObs_eq_iter c hv hit hio as s hnr hr hd ha
+  have hD := hf hstop
+  simp only [refStream, hit, if_true]
+  refine ⟨by rw [ho, hD], ?_⟩
+  rw [← yields_taskObs, ho, yields_map_expected, hD]
+
+end Iter
+
+/-- Non-vacuity (iterable): two workers with shards of 1 and 3 batches, prefetch factor 2.  Worker 0's
+end-of-shard notice (task 2) arrives before worker 1's first batch; tasks 4 and 6 are dead tasks of the
+retired worker 0 and are skipped; the order is still torch's `0,1000,1001,1002`. -/
+def exIter : Cfg :=
+  { W := 2, P := 2, interval := 1, inOrder := true, iterable := true, persistent := false
+    shards := [[.ok 0], [.ok 1000, .ok 1001, .ok 1002]], batches := [] }
+
+def exIterRun : List Action :=
+  [.work 0, .work 0, .next, .recv, .next, .recv, .work 1, .recv, .next, .work 1, .recv, .next, .work 1, .recv,
+   .next, .work 1, .recv]
+
+example : exIter.ValidI ∧ exIter.iterable = true ∧ exIter.inOrder = true ∧ NoReset exIterRun ∧
+    (run exIter (init exIter) exIterRun).map (fun s => (yields s.obs, s.obs.getLast?)) =
+      some ([0, 1000, 1001, 1002], some .stop) := by
+  refine ⟨⟨⟨by decide, by decide⟩, rfl⟩, rfl, rfl, by simp [NoReset, exIterRun], by decide⟩
+
+/-! ## Both dataset kinds -/
+
+/-- Well-formed configuration: at least one worker, prefetch factor ≥ 1, one shard per worker. -/
+def Cfg.WF (c : Cfg) : Prop := c.Valid ∧ (c.iterable = true → c.shards.length = c.W)
+
+/-- **C03/C05 `yields_prefix_ref`.**  For every configuration (map-style or iterable), every schedule, every
+reachable state: the batches yielded so far are a prefix of `Ref.stream cfg`. -/
+theorem yields_prefix_ref (c : Cfg) (hv : c.WF) (hio : c.inOrder = true) (as : List Action) (s : State)
+    (hnr : NoReset as) (hr : run c (init c) as = some s) (hd : ¬ died s) (ha : Obs.assertion ∉ s.obs) :
+    yields s.obs <+: oks (refStream c) := by
+  rcases Bool.eq_false_or_eq_true c.iterable with hit | hit
+  · exact yields_prefix_ref_iter c ⟨hv.1, hv.2 hit⟩ hit hio as s hnr hr hd ha
+  · exact yields_prefix_ref_map c hv.1 hit hio as s hnr hr hd ha
+
+/-- **C05 `deterministic`.**  Two schedules of one configuration that both yield `n` batches yield the
+same `n` batches. -/
+theorem deterministic (c : Cfg) (hv : c.WF) (hio : c.inOrder = true) (as₁ as₂ : List Action) (s₁ s₂ : State)
+    (hn₁ : NoReset as₁) (hn₂ : NoReset as₂)
+    (hr₁ : run c (init c) as₁ = some s₁) (hr₂ : run c (init c) as₂ = some s₂)
+    (hd₁ : ¬ died s₁) (hd₂ : ¬ died s₂) (ha₁ : Obs.assertion ∉ s₁.obs) (ha₂ : Obs.assertion ∉ s₂.obs)
+    (hlen : (yields s₁.obs).length = (yields s₂.obs).length) : yields s₁.obs = yields s₂.obs :=
+  prefix_eq_of_length _ _ _ (yields_prefix_ref c hv hio as₁ s₁ hn₁ hr₁ hd₁ ha₁)
+    (yields_prefix_ref c hv hio as₂ s₂ hn₂ hr₂ hd₂ ha₂) hlen
+
+/-- **C03 `exactly_once` / `epoch_complete`, both kinds.**  When `next()` returns stop, everything has
+been delivered exactly once, in `Ref.stream` order. -/
+theorem epoch_complete (c : Cfg) (hv : c.WF) (hio : c.inOrder = true) (as : List Action) (s : State)
+    (hnr : NoReset as) (hr : run c (init c) as = some s) (hd : ¬ died s) (ha : Obs.assertion ∉ s.obs)
+    (hstop : Obs.stop ∈ s.obs) :
+    taskObs s.obs = (refStream c).map expected ∧ yields s.obs = oks (refStream c) := by
+  rcases Bool.eq_false_or_eq_true c.iterable with hit | hit
+  · exact epoch_complete_iter c ⟨hv.1, hv.2 hit⟩ hit hio as s hnr hr hd ha hstop
+  · exact epoch_complete_map c hv.1 hit hio as s hnr hr hd ha hstop
+
+/-- **C05 `snapshot_fields`, both kinds.**  What `state_dict()` reports after the `n`-th yield depends on
+`n` only, for every schedule: `n = _num_yielded` is the number of batches yielded,
+`snapshot_step = interval·⌊n / interval⌋` (0 without interval), `steps_since_snapshot = n − snapshot_step`. -/
+theorem snapshot_fields (c : Cfg) (hv : c.WF) (hio : c.inOrder = true) (as : List Action) (s : State)
+    (hnr : NoReset as) (hr : run c (init c) as = some s) (hd : ¬ died s) :
+    s.numYielded = (yields s.obs).length ∧
+    s.snap.step = (if c.interval = 0 then 0 else c.interval * (s.numYielded / c.interval)) ∧
+    s.numYielded - s.snap.step = (if c.interval = 0 then s.numYielded else s.numYielded % c.interval) := by
+  have hgs : GS c s := by
+    rcases Bool.eq_false_or_eq_true c.iterable with hit | hit
+    · rcases run_gs_iter c as (init c) s (hv.2 hit) hit hio hnr
+        (Or.inl ⟨init_invI c ⟨hv.1, hv.2 hit⟩ hit hio, init_gs c hv.1⟩) hr with h | h
+      · exact h.2
+      · exact absurd h hd
+    · rcases run_gs_map c as (init c) s hv.1 hit hio hnr
+        (Or.inl ⟨init_invM c hv.1 hit hio, init_gs c hv.1⟩) hr with h | h
+      · exact h.2
+      · exact absurd h hd
+  refine ⟨hgs.ny, ?_⟩
+  by_cases h0 : c.interval = 0
+  · simp [h0, hgs.st0 h0]
+  · obtain ⟨⟨k, hk⟩, h2, h3⟩ := hgs.st h0
+    simp only [h0, if_false]
+    have hpos : 0 < c.interval := Nat.pos_of_ne_zero h0
+    have hdiv : s.numYielded / c.interval = k := by
+      rw [hk] at h2 h3
+      exact Nat.div_eq_of_lt_le (by rw [Nat.mul_comm]; exact h2) (by rw [Nat.mul_comm, Nat.mul_succ]; exact h3)
+    refine ⟨by rw [hdiv, hk], ?_⟩
+    have := Nat.div_add_mod s.numYielded c.interval
+    rw [hdiv, ← hk] at this
+    omega
+
+/-- **C03 liveness `progress`, both kinds.**  Whenever the consumer is blocked inside `next()`, a result
+can be received, or some worker can handle a message, or a worker that still owes work is dead and the
+liveness poll raises the worker-died error.  No deadlock, for every schedule, any number of kills, any
+arrival order of end-of-shard notices. -/
+theorem progress (c : Cfg) (hv : c.WF) (hio : c.inOrder = true) (as : List Action) (s : State)
+    (hnr : NoReset as) (hr : run c (init c) as = some s) (hd : ¬ died s) (hph : s.phase = .waiting) :
+    (∃ s', step c s .recv = some s') ∨ (∃ w s', step c s (.work w) = some s') ∨
+    (∃ s', step c s .pollTimeout = some s' ∧ died s') := by
+  rcases Bool.eq_false_or_eq_true c.iterable with hit | hit
+  · exact progress_of_invI c s (reach_iter c ⟨hv.1, hv.2 hit⟩ hit hio as s hnr hr hd) hph
+  · exact progress_map c hv.1 hit hio as s hnr hr hd hph
+
+/-- **C03 liveness, decreasing measure, iterable.**  Every `work` step, and every `recv` step that leaves
+the consumer blocked (including the receipt of an end-of-shard notice, which retires a worker and
+dispatches one more task), strictly decreases
+`5·(workers still expected to work) + 2·(queued index messages) + (results in flight)`.
+With `progress`: every fair run of `next()` returns. -/
+theorem variant_iter (c : Cfg) (hv : c.ValidI) (hit : c.iterable = true) (hio : c.inOrder = true)
+    (as : List Action) (s s' : State) (a : Action) (hnr : NoReset as)
+    (hr : run c (init c) as = some s) (hd : ¬ died s) (hst : step c s a = some s')
+    (ha : a = .recv ∨ ∃ w, a = .work w) (hph : s'.phase = .waiting) : measureI s' < measureI s := by
+  rcases ha with rfl | ⟨w, rfl⟩
+  · exact recv_decreases_iter c s s' hio (reach_iter c hv hit hio as s hnr hr hd) hst hph
+  · exact work_decreases_I c s s' w hst
+
+/-- **C09 `kill_safe`, both kinds.**  `kill` actions may occur anywhere in the schedule: as long as no
+worker death has been reported, the yields are a prefix of the reference stream, and StopIteration is
+raised only after the complete stream was delivered — never while a task of a dead worker that has not
+been retired is outstanding (the consumer blocks instead, and `kill_detected` applies). -/
+theorem kill_safe (c : Cfg) (hv : c.WF) (hio : c.inOrder = true) (as : List Action) (s : State)
+    (hnr : NoReset as) (hr : run c (init c) as = some s) (hd : ¬ died s) (ha : Obs.assertion ∉ s.obs) :
+    yields s.obs <+: oks (refStream c) ∧ (Obs.stop ∈ s.obs → yields s.obs = oks (refStream c)) :=
+  ⟨yields_prefix_ref c hv hio as s hnr hr hd ha, fun hstop => (epoch_complete c hv hio as s hnr hr hd ha hstop).2⟩
+
 end TDV.MP
